@@ -44,7 +44,13 @@ F4b == { In(<<"int", "int">>, << <<a, Bind("x")>>, <<Bind("x"), b>> >>, g) : a \
 \* F5: three arguments
 F5 == { In(<<"int", "str", "opt">>, << <<a, b, c>> >>, NoG) : a \in {Lit(1), Eq(2), Wild}, b \in {Str("a"), Wild, Ne("a")}, c \in {PNone, Eq(<<"Some", 1>>), Wild} }
       \cup { In(<<"int", "int", "int">>, << <<Bind("x"), Eq(1), Bind("y")>> >>, [g |-> "ne2", x |-> "x", y |-> "y"]) }
-FamQ == F0 \cup F1 \cup F2 \cup F3a \cup F3b \cup F4a \cup F4b \cup F5
+\* F6: guards on outside state (no binding), in particular on patterns made of wildcards only
+GuardsExt == { [g |-> "ext", v |-> TRUE], [g |-> "ext", v |-> FALSE] }
+F6 == { In(<<"int">>, << <<a>> >>, g) : a \in {Wild, Lit(1), Bind("x")}, g \in GuardsExt }
+      \cup { In(<<"int", "int">>, << <<a, b>> >>, g) : a \in {Wild, Eq(1)}, b \in {Wild, Lit(0)}, g \in GuardsExt }
+      \cup { In(<<"int", "int">>, << <<Wild, Wild>>, <<Lit(1), Wild>> >>, g) : g \in GuardsExt }
+      \cup { In(<<"int", "int">>, << <<Lit(1), Wild>>, <<Wild, Wild>> >>, g) : g \in GuardsExt }
+FamQ == F0 \cup F1 \cup F2 \cup F3a \cup F3b \cup F4a \cup F4b \cup F5 \cup F6
 FamT == FamQ \cup UNION { { In(<<t, u>>, << <<a, b>> >>, NoG) : a \in PatsFull[t], b \in PatsRed[u] } : t \in Types, u \in Types }
 
 \* all argument tuples of an input's types, first position slowest
